@@ -128,7 +128,8 @@ class Evaluator:
             return ("unit",)
         if k == "call":
             return self.call(e, env)
-        raise Unrecognised(f"expression kind {k}")
+        import hirpp
+        raise Unrecognised(f"expression `{hirpp.expr(e)[:80]}` (line {e.get('ln', '?')}, kind {k}) is outside the abstract evaluator")
 
     def stmt(self, s, env):
         s = hir.simp(s)
